@@ -10,9 +10,20 @@
    edit between two calls is a different `kids` / oracle on the next call.  The pass bodies are abstract: a body either
    completes or raises, decided by the oracle  f : pass identity -> module -> option (error identity).
 
-   `policy` selects the bookkeeping:  repaired = exception-safe pending AND sticky failure record (the code after C08-1);
-   pinned = neither (the pinned tree, literally: `pending.remove` only on the success path); naive = exception-safe pending
-   only (the "obvious" repair).  The theorems of Props/C08.v are about `repaired`; the other two are refuted there. *)
+   An error identity c : Z stands for (exception class, message); c < 0 are the exceptions that are NOT `Exception`s
+   (KeyboardInterrupt, SystemExit, a test framework's outcomes, ...), which an `except Exception` clause does not see.
+
+   `policy` selects the bookkeeping:
+     repaired  = the code after fixes C08-1, C08-3, C08-4: `pending.remove` in a `finally`, the failure of a pass body recorded
+                 on the module for every BaseException, and every pass sweeps the whole hierarchy below the tops (a module
+                 that the pass completed earlier hides nothing that was attached to it since);
+     no_sweep  = the same without the sweep (the code after C08-1 + C08-3): each pass starts from the tops only;
+     record_exc_only  = the record made by `except Exception` (the code after C08-1 alone): an exception outside
+                 `Exception` interrupts a rewriting pass without leaving a record;
+     cleanup_exc_only = `pending.remove` in an `except Exception` clause instead of `finally` (what a seeded change did to
+                 the generator cache, here for the passes): such an exception leaves the modules pending;
+     naive     = exception-safe pending only (the "obvious" repair);  pinned = nothing (the pinned tree, literally).
+   The theorems of Props/C08.v are about `repaired`; the others are refuted there. *)
 Require Import Hdl21.Base.PyInt.
 Open Scope list_scope.
 
@@ -32,10 +43,24 @@ Record pst := {
   half : list nat
 }.
 
-Record policy := { cleanup : bool; sticky : bool }.
-Definition repaired := {| cleanup := true; sticky := true |}.
-Definition pinned := {| cleanup := false; sticky := false |}.
-Definition naive := {| cleanup := true; sticky := false |}.
+Record policy := {
+  cleanup : bool;        (* pending.remove also when the visit ends with an exception ... *)
+  cleanup_base : bool;   (* ... also with one that is no `Exception` (finally, not `except Exception`) *)
+  sticky : bool;         (* the failure of a pass body is recorded on the module ... *)
+  sticky_base : bool;    (* ... also one that is no `Exception` *)
+  sweep : bool           (* every pass visits all modules below the tops, not only what it reaches through unfinished ones *)
+}.
+Definition repaired := {| cleanup := true; cleanup_base := true; sticky := true; sticky_base := true; sweep := true |}.
+Definition no_sweep := {| cleanup := true; cleanup_base := true; sticky := true; sticky_base := true; sweep := false |}.
+Definition record_exc_only := {| cleanup := true; cleanup_base := true; sticky := true; sticky_base := false; sweep := true |}.
+Definition cleanup_exc_only := {| cleanup := true; cleanup_base := false; sticky := true; sticky_base := true; sweep := true |}.
+Definition pinned := {| cleanup := false; cleanup_base := false; sticky := false; sticky_base := false; sweep := false |}.
+Definition naive := {| cleanup := true; cleanup_base := true; sticky := false; sticky_base := false; sweep := false |}.
+
+Definition code_base (c : Z) : bool := c <? 0.
+Definition cerr_base (e : cerr) : bool := match e with CE c => code_base c | _ => false end.
+Definition records (pol : policy) (c : Z) : bool := sticky pol && (sticky_base pol || negb (code_base c)).
+Definition cleans (pol : policy) (e : cerr) : bool := cleanup pol && (cleanup_base pol || negb (cerr_base e)).
 
 Definition init : pst := {| done := []; pend := []; failed := []; elab := []; half := [] |}.
 
@@ -59,7 +84,7 @@ Definition set_done (x : nat * nat) (mk : bool) (s : pst) : pst :=
      elab := if mk then snd x :: elab s else elab s; half := half s |}.
 (* the body of a rewriting pass raised inside module m *)
 Definition interrupted (pol : policy) (m : nat) (c : Z) (s : pst) : pst :=
-  {| done := done s; pend := pend s; failed := if sticky pol then (m, c) :: failed s else failed s;
+  {| done := done s; pend := pend s; failed := if records pol c then (m, c) :: failed s else failed s;
      elab := elab s; half := m :: half s |}.
 
 (* children in visit order, stopping at the first failure *)
@@ -70,6 +95,17 @@ Fixpoint fold_visit (v : pst -> nat -> pst * option cerr) (s : pst) (ms : list n
                 | (s1, None) => fold_visit v s1 ms'
                 | r => r
                 end
+  end.
+
+(* the modules below `tops`, each once, in depth-first order (ElabPass.modules_below): `seen` is kept latest first *)
+Fixpoint reach_step (kids : nat -> option (list nat)) (fuel : nat) (seen : list nat) (m : nat) : list nat :=
+  match fuel with
+  | O => seen
+  | S k => if memn m seen then seen else
+           match kids m with
+           | None => m :: seen
+           | Some cs => fold_left (reach_step kids k) cs (m :: seen)
+           end
   end.
 
 Section Call.
@@ -92,12 +128,12 @@ Fixpoint visit (p : pass) (fuel : nat) (s : pst) (m : nat) : pst * option cerr :
           | Some cs =>
               match fold_visit (visit p k) (add_pend (pid p, m) s) cs with
               | (s2, Some e) =>                                          (* a child raised: `finally` *)
-                  (if cleanup pol then unpend (pid p, m) s2 else s2, Some e)
+                  (if cleans pol e then unpend (pid p, m) s2 else s2, Some e)
               | (s2, None) =>
                   match f (pid p) m with
                   | Some c =>                                            (* the body raised *)
                       let s3 := if prw p then interrupted pol m c s2 else s2 in
-                      (if cleanup pol then unpend (pid p, m) s3 else s3, Some (CE c))
+                      (if cleans pol (CE c) then unpend (pid p, m) s3 else s3, Some (CE c))
                   | None => (set_done (pid p, m) (pmk p) (unpend (pid p, m) s2), None)
                   end
               end
@@ -105,15 +141,21 @@ Fixpoint visit (p : pass) (fuel : nat) (s : pst) (m : nat) : pst * option cerr :
       end
   end.
 
-(* Elaborator.elaborate: each pass over all tops, in order *)
-Fixpoint run_passes (fuel : nat) (ps : list pass) (tops : list nat) (s : pst) : pst * option cerr :=
+(* Elaborator.elaborate over an explicit list of modules to start from: each pass over all of them, in order *)
+Fixpoint run_passes_on (fuel : nat) (ps : list pass) (ms : list nat) (s : pst) : pst * option cerr :=
   match ps with
   | [] => (s, None)
-  | p :: ps' => match fold_visit (visit p fuel) s tops with
-                | (s1, None) => run_passes fuel ps' tops s1
+  | p :: ps' => match fold_visit (visit p fuel) s ms with
+                | (s1, None) => run_passes_on fuel ps' ms s1
                 | r => r
                 end
   end.
+
+(* ElabPass.elaborate_tops: the tops, then (fix C08-4) every module below them *)
+Definition below (fuel : nat) (tops : list nat) : list nat := rev (fold_left (reach_step kids fuel) tops []).
+Definition starts (fuel : nat) (tops : list nat) : list nat := if sweep pol then tops ++ below fuel tops else tops.
+Definition run_passes (fuel : nat) (ps : list pass) (tops : list nat) (s : pst) : pst * option cerr :=
+  run_passes_on fuel ps (starts fuel tops) s.
 
 (* ProtoExporter.export_module: per-call memo `acc`, record check, children first, then the module itself *)
 Fixpoint fold_x (v : list nat -> nat -> list nat * option cerr) (acc : list nat) (ms : list nat) : list nat * option cerr :=
@@ -189,14 +231,5 @@ Fixpoint run_hist (pol : policy) (s : pst) (cs : list call) : pst :=
   end.
 
 (* modules reachable from `tops` (the design of a call), by bounded closure *)
-Fixpoint reach_step (kids : nat -> option (list nat)) (fuel : nat) (seen : list nat) (m : nat) : list nat :=
-  match fuel with
-  | O => seen
-  | S k => if memn m seen then seen else
-           match kids m with
-           | None => m :: seen
-           | Some cs => fold_left (reach_step kids k) cs (m :: seen)
-           end
-  end.
 Definition reach (c : call) : list nat :=
   fold_left (reach_step (assoc_kids (c_kids c)) (call_fuel c)) (c_tops c) [].
